@@ -131,6 +131,18 @@ func buildUserPacket(kind string, r *rng) *astits.Packet {
 		a := buildAF("rich", r)
 		return &astits.Packet{Header: astits.PacketHeader{PID: 0x1ffe, HasPayload: true, HasAdaptationField: true, ContinuityCounter: uint8(r.intn(16))},
 			AdaptationField: a, Payload: r.bytes(184 - afTotalLen("rich"))}
+	case "privlen": // the redundant length field of the private data disagrees with the data: the bytes follow the data
+		d := r.bytes(r.pick(1, 5, 20))
+		return &astits.Packet{Header: astits.PacketHeader{PID: 0x1ffe, HasPayload: true, HasAdaptationField: true, ContinuityCounter: uint8(r.intn(16))},
+			AdaptationField: &astits.PacketAdaptationField{HasTransportPrivateData: true, TransportPrivateData: d, TransportPrivateDataLength: r.pick(0, 0, 1, 30)}, Payload: r.bytes(100)}
+	case "hugeaf": // adaptation fields whose size does not fit the 8-bit length byte, with payload / alone / as stuffing
+		return &astits.Packet{Header: astits.PacketHeader{PID: 0x1ffe, HasPayload: true, HasAdaptationField: true, ContinuityCounter: uint8(r.intn(16))},
+			AdaptationField: buildAF("huge8", r), Payload: r.bytes(r.pick(0, 1, 10, 100))}
+	case "hugeafonly":
+		return &astits.Packet{Header: astits.PacketHeader{PID: 0x1ffe, HasAdaptationField: true, ContinuityCounter: uint8(r.intn(16))}, AdaptationField: buildAF(r.pickS("huge", "huge8"), r)}
+	case "hugestuff":
+		return &astits.Packet{Header: astits.PacketHeader{PID: 0x1ffe, HasPayload: true, HasAdaptationField: true, ContinuityCounter: uint8(r.intn(16))},
+			AdaptationField: &astits.PacketAdaptationField{StuffingLength: r.pick(183, 200, 253, 254, 255, 256, 400, 437)}, Payload: r.bytes(r.pick(1, 10))}
 	case "toobig":
 		return &astits.Packet{Header: astits.PacketHeader{PID: 0x1ffe, HasPayload: true, ContinuityCounter: uint8(r.intn(16))}, Payload: r.bytes(185)}
 	case "nopltoobig": // no payload flagged, yet an oversize Payload slice: must be rejected without a partial write like any other
